@@ -610,7 +610,7 @@ def handle (line : String) : String :=
       | [ecls, got, a, b] =>
         if ecls != "nil" then "SPEC C05:unexpected-error-class"
         else if got == a || got == b then "OK"
-        else "SPEC C06:result-is-not-a-sequential-result-for-either-limit"
+        else "SPEC C06:result-is-not-a-sequential-result-for-either-limit ; SPEC C03:path-is-not-the-first-match-path-for-either-limit"
       | _ => "SPEC C01:no-result(" ++ goRes ++ ")"
     | ["fmt", th, vh] =>
       match unhex th, unhex vh with
